@@ -8,15 +8,15 @@ import riemann_oracles as RO
 
 def gen_oracle(rng, tier, reasons):
     # general-EOS solver: P-U curves from ODE integration and table interpolation (class NU); its own conservation error on the unchanged
-    # tree is up to 1.2e-3 (measured), so only defects above 2e-2 are reported
-    n = 3 if tier == 'quick' else 30
+    # tree is up to 5.4e-3 (measured over 84 problems; 95 % are below 1.5e-3), so defects above 1.2e-2 are reported
+    n = 6 if tier == 'quick' else 30
     cases = [{'what': 'cons', 'params': P, 't': t, 'kind': 'gen'} for P, t in RO._problems(rng, n)]
     res = H.run_real(RO.SCRIPT, cases, timeout=3000)
     fails = []
     for c, o in zip(cases, res):
         if 'error' in o:
             continue
-        if max(abs(z) for z in o['defect']) > 2e-2:
+        if max(abs(z) for z in o['defect']) > 1.2e-2:
             fails.append({'solver': 'GenEOS_Solver', 'params': c['params'], 't': c['t'], 'pattern': o['type'], 'window': o['window'],
                           'integral(mass,momentum,energy)': o['integral'], 'initial_plus_t_times_flux_difference': o['expected'],
                           'normalised_defect': o['defect']})
@@ -37,7 +37,7 @@ UNITS = [
               note='piecewise Simpson integration of the fields returned by IGEOS_Solver between the reported wave positions (bisect tolerance, '
                    'internal grid and np.interp back-interpolation are outside the theorem)'),
     flow.Unit('geneos-real-code', groups=[], props=[], oracle=gen_oracle, always_oracle=True,
-              note='general-EOS solver (ODE-integrated P-U curves, interpolation tables, bisect: class NU): conservation oracle only, threshold 2e-2 '
+              note='general-EOS solver (ODE-integrated P-U curves, interpolation tables, bisect: class NU): conservation oracle only, threshold 1.2e-2 '
                    '(its own error on the unchanged tree is up to 1.2e-3); ideal-gas EOS data with unequal gammas; JWL data not exercised'),
 ]
 
